@@ -1475,7 +1475,7 @@ def c06(W, replay=None):
     vs, index, traces = [], {}, 0
     if not replay:
         # design level: Secrecy holds exactly for the Csprng class
-        for cls in ("Csprng", "TimeSeededPrng", "SharedStream", "Correlated"):
+        for cls in ("Csprng", "TimeSeededPrng", "SharedStream", "Correlated", "FallbackPrng", "FixedKeyStream"):
             out, viol = W.tlc_exhaustive("Entropy", cfg_text("Spec", dict(GenClass='"%s"' % cls, MaxLogins=3), ["Secrecy"]), "entropy-" + cls, workers=2,
                                          expect_violation=(cls != "Csprng"))
             if (cls == "Csprng") == bool(viol):
@@ -1484,12 +1484,12 @@ def c06(W, replay=None):
         trace = W.path("entropy.trace.ndjson")
         tmp = W.path("tmp-entropy")
         os.makedirs(tmp, exist_ok=True)
-        env = dict(os.environ, VERIF_OUT=trace, VERIF_TIER=W.tier)
+        env = dict(os.environ, VERIF_OUT=trace, VERIF_TIER=W.tier, VERIF_SELF=W.bin)
         p = subprocess.run([W.bin, "-test.run", "^TestEntropy$", "-test.timeout", "3000s"], env=env, capture_output=True, text=True, cwd=tmp)
         if p.returncode != 0:
             raise Infra("entropy witnesses failed to run:\n" + p.stdout[-2000:] + p.stderr[-2000:])
         v = W.validate(trace, "entropy", module="EntropyTrace")
-        for k in ("DeriveFromTimeSeed", "DeriveFromPublic", "DeriveFromSibling"):
+        for k in ("DeriveFromTimeSeed", "DeriveFromPublic", "DeriveFromSibling", "DeriveWhenSourceSlow", "DeriveFromEarlierRun"):
             if not v["fired"].get(k):
                 raise Infra("witness for %s did not run" % k)
         vs.append(v)
